@@ -374,7 +374,12 @@ func (c03) build(c *mon.Ctx) progCase {
 	g.PointKeys = []string{"f1", "f2", "t1", "message"}
 	g.Names = []string{"a", "b", "c", "d", "f1"}
 	g.MaxDepth = 2 + c.R.Intn(3)
-	stmts := gt.ParenthesizeStmts(g.Program())
+	prog := g.Program()
+	if wr := c.Sub("wrap"); wr.Intn(6) == 0 {
+		// one program in six runs 1..9 blocks deeper
+		prog = wrapDeep(prog, 1+wr.Intn(9))
+	}
+	stmts := gt.ParenthesizeStmts(prog)
 	var lay *gt.Layout
 	if c.R.Intn(4) == 0 {
 		lay = &gt.Layout{R: c.Sub("lay"), Breaks: true}
